@@ -1296,6 +1296,13 @@ fn resolve_names_func_helper_decl_only(
     args: &[ArgMaybeAnnotated],
     ret_type: &Option<Rc<Type>>,
 ) {
+    // default values are evaluated at the call site, so they are resolved before
+    // the parameters themselves come into scope
+    for arg in args {
+        if let Some(default_val) = &arg.default_val {
+            resolve_names_expr(ctx, symbol_table, default_val);
+        }
+    }
     for arg in args {
         resolve_names_fn_arg(symbol_table, &arg.name);
         if let Some(ty_annot) = &arg.ty {
@@ -1315,6 +1322,13 @@ fn resolve_names_func_helper(
     body: &Rc<Expr>,
     ret_type: &Option<Rc<Type>>,
 ) {
+    // default values are evaluated at the call site, so they are resolved before
+    // the parameters themselves come into scope
+    for arg in args {
+        if let Some(default_val) = &arg.default_val {
+            resolve_names_expr(ctx, symbol_table, default_val);
+        }
+    }
     for arg in args {
         resolve_names_fn_arg(symbol_table, &arg.name);
         if let Some(ty_annot) = &arg.ty {
